@@ -26,6 +26,22 @@ C20_BUILDER = (r'^builder/BytecodeBuilder::(emit|emit_jump|emit_jump_if_true|emi
 C10_EXCLUDE = r'#(span_recorded|span_inherited|earlier_spans_kept)$|::(set_span|clear_span)/'
 
 PROPS = {
+    'C15': {
+        'kani': [{'unit': 'value_toint32', 'mount': 'src/value.rs', 'mod': 'verif_kani_value_toint32',
+                  'harnesses': {
+                      'to_uint32_contract': {'kind': 'complete', 'fn': 'value::to_uint32'},
+                      'to_int32_contract': {'kind': 'complete', 'fn': 'value::to_int32'},
+                  }, 'replay_test': 'verif_replay_value_toint32'}],
+        'side': {'unit': 'side_c15', 'mount': 'src/lib.rs', 'mod': 'verif_side_c15', 'test': 'verif_side_c15', 'iters_quick': 40, 'iters_thorough': 2000},
+        'trusted_base': COMMON_TB + ['CBMC floating-point semantics for f64 comparison, `as i64` and to_bits (bit-precise; f64 % is not used by the contracted code)'],
+        'assumptions': [
+            'ToInt32/ToUint32 clause only: decimal printing (number_to_string), literal / Number() parsing and toFixed/toPrecision/toExponential/toString(radix) are NOT verified',
+            'the link from to_int32/to_uint32 to the 13 operator sites in execute_op is a syntactic side obligation + native replay battery (not a proof)',
+        ],
+        'explanation': 'Kani contract on the real value::to_uint32 / to_int32 for all 2^64 f64 bit patterns against an integer-only specification of '
+                       '"truncate toward zero, then wrap modulo 2^32"; loop-free, hence complete.',
+        'not_carried': 'shortest round-trip printing, literal/Number() parsing, toFixed/toPrecision/toExponential/toString(radix)',
+    },
     'C10': {
         'verus': [BUILDER_VERUS],
         'kani': [{'unit': 'builder_restore', 'mount': 'src/compiler/builder.rs', 'mod': 'verif_kani_builder_restore',
